@@ -69,6 +69,11 @@ class Boom(Exception):
     pass
 
 
+# set iteration order: hashes of the scripted objects are crc32(name + SALT); a scenario may carry a `salt`
+# so that different iteration orders of the same tree are explored (and reproduced)
+SALT = ''
+
+
 class SJob(AbstractJob):
     """scripted atomic job"""
 
@@ -90,7 +95,7 @@ class SJob(AbstractJob):
 
     def __hash__(self):
         # deterministic set iteration order across two builds of one scenario (metamorphic pairs)
-        return zlib.crc32(self.name.encode())
+        return zlib.crc32((self.name + SALT).encode())
 
     def __eq__(self, other):
         return self is other
@@ -140,7 +145,7 @@ def make_logging_scheduler(base):
             return 'LSched(%s)' % self.name
 
         def __hash__(self):
-            return zlib.crc32(self.name.encode())
+            return zlib.crc32((self.name + SALT).encode())
 
         def __eq__(self, other):
             return self is other
@@ -194,6 +199,8 @@ def build(spec, loop=None):
     """spec: {'name','type':'sched','pure':bool,'window','timeout','shutdown_timeout','critical',
               'forever','members':[spec...],'edges':[[i,j]...]}  (member i requires member j)
           | {'name','type':'job','duration','outcome','critical','forever','cancel_delay','shutdown_duration'}"""
+    global SALT
+    SALT = str(spec.get('salt', ''))
     b = Built()
     b.loop = loop or VLoop()
     b.trace = Trace(b.loop)
